@@ -3,15 +3,17 @@
 From Coq Require Import String List NArith Bool Arith Lia.
 From J5V.model Require Import Conc ConcSites ConcCorr ConcRace ConcStatement ConcState.
 From J5V.gen Require ConcGen ConcStateGen.
-From J5V.proofs Require Import ConcProofs ConcInvProofs ConcTermProofs ConcMainProofs ConcRaceProofs.
+From J5V.proofs Require Import ConcProofs ConcInvProofs ConcTermProofs ConcMainProofs ConcRetProofs ConcRaceProofs.
 Import ListNotations.
 
 Lemma logic_guarded : C10_logic_statement Guarded.
 Proof.
-  intros k g calls Hok. split; [|split].
+  intros k g calls Hok. split; [|split; [|split; [|split]]].
   - intros sched t. apply guarded_results. exact Hok.
   - intros sched H. destruct (guarded_progress k g calls sched Hok H) as (t & H1 & _ & H3). exists t. split; assumption.
   - intros rounds. apply guarded_fair_complete. exact Hok.
+  - intros sched t1 t2 n c1 c2. apply guarded_ret_canonical. exact Hok.
+  - intros sched t n c. apply guarded_ret_linked. exact Hok.
 Qed.
 
 Lemma memory_guarded : C10_memory_statement Guarded.
